@@ -21,7 +21,9 @@ import numpy as np
 ID = "C18"
 LEVEL = "model_checking"
 RULE = (
-    "full product scenes x solvers (Moreau, Rattle, BackwardEuler, DualStormerVerlet) x e_N x mu x dt, one execution of N steps per case, "
+    "full product of 11 scenes (vp/scen/scenes.py: ball/point mass on fixed, inclined and moving planes, sphere-sphere head-on/oblique, two-contact stack) x "
+    "solvers (Moreau, DualStormerVerlet default and accelerated=False [thorough: + LU], BackwardEuler, Rattle) x e_N in {0, generic, 1} x mu in {0, generic, 1} x "
+    "dt in {1e-3, [thorough: 5e-3,] 2e-2}; one execution of N = 60 (quick) / 100 (thorough) steps per case, "
     "every stored step k>=1 is a checked state (states = stored steps, transitions = solver steps); a case is non-trivial if at least one "
     "stored step carries a normal percussion P_N > 0 (the contact laws were really exercised)"
 )
@@ -41,8 +43,6 @@ CASE_TIMEOUT = 600
 
 SOLVERS = ["Moreau", "DualStormerVerlet", "DualStormerVerlet_plain", "BackwardEuler", "Rattle"]  # _plain: accelerated=False, _LU: linear_solver="LU"
 VELOCITY_LEVEL = {"Moreau", "DualStormerVerlet", "DualStormerVerlet_plain", "DualStormerVerlet_LU"}
-E_N = [0.0, 0.5, 1.0]
-MU = [0.0, 0.3, 1.0]
 DT = [1e-3, 5e-3, 2e-2]
 
 # ---- tolerances (calibrated, see stats max_* in the evidence) ---------------------------------
@@ -61,22 +61,32 @@ TOL_KE_REL = 1e-9
 TOL_KE_ABS = 1e-12
 
 
+def letters(seed):
+    """special letters 0 and 1 plus one generic letter each for e_N and mu; seed 0 uses the design's 0.5 / 0.3, other seeds rotate the
+    generic letter inside (0.15, 0.85) (Weyl sequence), rounded to 3 decimals so that replay files carry the exact numbers"""
+    if seed == 0:
+        return [0.0, 0.5, 1.0], [0.0, 0.3, 1.0]
+    from vp.core.alphabet import weyl
+
+    w = weyl(seed, 18, 2, lo=0.15, hi=0.85)
+    return [0.0, round(float(w[0]), 3), 1.0], [0.0, round(float(w[1]), 3), 1.0]
+
+
 def cases(tier, seed):
     from vp.scen.scenes import SCENES
 
     N = 100 if tier == "thorough" else 60
     dts = DT if tier == "thorough" else [1e-3, 2e-2]
     solvers = SOLVERS + (["DualStormerVerlet_LU"] if tier == "thorough" else [])
+    e_Ns, mus = letters(seed)
     out = []
     for scene in SCENES:
         for solver in solvers:
             for dt in dts:
-                for e_N in E_N:
-                    for mu in MU:
+                for e_N in e_Ns:
+                    for mu in mus:
                         out.append({"scene": scene, "solver": solver, "e_N": e_N, "mu": mu, "dt": dt, "N": N})
-    # order: cheap solvers first is irrelevant for completeness; rotate by seed so that shards differ between seeds
-    k = seed % len(out)
-    return out[k:] + out[:k]
+    return out
 
 
 # ------------------------------------------------------------------------------------------------
